@@ -147,7 +147,7 @@ func specRpqInWindow(q *receivePayloadQueue, t uint32) bool {
 //@   requires rpqCount(q)
 //@   ensures#admit result == (specRpqInWindow(q, tsn) && !specRpqHas(q, tsn))
 //@   modifies nothing
-//@   tags C01 C05 C11 C16
+//@   tags C01 C05 C11 C16 C03
 //@   safety C03
 
 //@ func receivePayloadQueue.push
@@ -161,7 +161,7 @@ func specRpqInWindow(q *receivePayloadQueue, t uint32) bool {
 //@   ensures#cum q.cumulativeTSN == old(q.cumulativeTSN) && q.maxTSNOffset == old(q.maxTSNOffset)
 //@   ensures#tail q.tailTSN-q.cumulativeTSN >= old(q.tailTSN-q.cumulativeTSN)
 //@   modifies q.tsnBitmask[*], q.chunkSize, q.tailTSN, q.dupTSN, q.dupTSN[*]
-//@   tags C01 C05 C11 C16
+//@   tags C01 C05 C11 C16 C03
 //@   safety C03
 
 //@ func receivePayloadQueue.pop
@@ -175,7 +175,7 @@ func specRpqInWindow(q *receivePayloadQueue, t uint32) bool {
 //@   ensures#noop !result && !force ==> q.cumulativeTSN == old(q.cumulativeTSN) && q.tailTSN == old(q.tailTSN) && q.chunkSize == old(q.chunkSize)
 //@   ensures#noop-view !result && !force ==> forall t uint32 :: specRpqHas(q, t) == old(specRpqHas(q, t))
 //@   modifies q.tsnBitmask[*], q.chunkSize, q.tailTSN, q.cumulativeTSN
-//@   tags C01 C05 C16
+//@   tags C01 C05 C16 C03
 //@   safety C03
 
 // ---- C19: retransmission timers (IEEE-754 binary64 semantics) ----
@@ -332,7 +332,7 @@ func ifaceIs(x any, p any) bool     { return true }
 //@   ensures rpqInv(result)
 //@   ensures rpqCount(result)
 //@   ensures#empty result.chunkSize == 0 && result.maxTSNOffset >= maxTSNOffset && result.maxTSNOffset <= 40000+63
-//@   tags C01 C05 C11 C16
+//@   tags C01 C05 C11 C16 C03
 //@   safety C03
 
 // ---- C12/C03: chunk header and DATA / I-DATA codec ----
@@ -447,7 +447,7 @@ func specDataFlags(p *chunkPayloadData) uint8 {
 //@   ensures#frame q.cumulativeTSN == old(q.cumulativeTSN) && q.tailTSN == old(q.tailTSN) && q.maxTSNOffset == old(q.maxTSNOffset) && len(q.tsnBitmask) == old(len(q.tsnBitmask))
 //@   ensures#count{TRUSTED} forall t uint32 :: specRpqBit(q, t) ==> q.chunkSize > 0
 //@   modifies q.tsnBitmask[*], q.chunkSize
-//@   tags C05 C07 C16
+//@   tags C05 C07 C16 C03
 //@   safety C03
 
 //@ func receivePayloadQueue.init
@@ -459,7 +459,7 @@ func specDataFlags(p *chunkPayloadData) uint8 {
 //@   ensures rpqCount(q)
 //@   ensures#restarted q.cumulativeTSN == cumulativeTSN && q.tailTSN == cumulativeTSN && q.chunkSize == 0 && len(q.dupTSN) == 0
 //@   ensures#empty-view forall t uint32 :: !specRpqHas(q, t)
-//@   tags C05 C04 C16
+//@   tags C05 C04 C16 C03
 //@   safety C03
 
 //@ func receivePayloadQueue.advanceCumulativeTSN
@@ -476,7 +476,7 @@ func specDataFlags(p *chunkPayloadData) uint8 {
 //@   ensures#stale-view !old(specSerLT32(q.cumulativeTSN, cumulativeTSN)) ==> forall t uint32 :: specRpqHas(q, t) == old(specRpqHas(q, t))
 //@   ensures#never-backwards q.cumulativeTSN-old(q.cumulativeTSN) < 1<<31
 //@   modifies q.tsnBitmask[*], q.chunkSize, q.tailTSN, q.cumulativeTSN
-//@   tags C05 C07 C16
+//@   tags C05 C07 C16 C03
 //@   safety C03
 
 // ---- C05: gap ack blocks tell exactly which offsets above the cumulative point were received ----
